@@ -47,12 +47,24 @@ TReset == /\ Is("setup") /\ l > 1
                /\ endedEarly' = FALSE /\ touched' = FALSE
           /\ Step
 
+\* the setup line of the trace that event i belongs to
+RECURSIVE SetupIdx(_)
+SetupIdx(i) == IF i <= 1 \/ Tr[i].ev = "setup" THEN i ELSE SetupIdx(i - 1)
+\* runs through wsutil.DebugDialer: its response reader (net/http's parser on a tee of the connection)
+\* sits between the dialer and the connection.  A read of the connection that fails is seen by that
+\* reader first; the dialer then reads the connection again itself and it is this last failure (possibly of
+\* another kind: the deadline may have been poisoned meanwhile) that Upgrade returns.  Failing reads other
+\* than the one the dialer model takes are therefore absorbed - they change nothing the property speaks of.
+DebugRun == Tr[SetupIdx(l)].debug
+DebugReread == Is("io") /\ Step /\ DebugRun /\ Ev.res # "ok" /\ hasConn /\ UNCHANGED vars
+
 Visible ==
+    \/ DebugReread
     \/ Is("netdial") /\ Step /\ Ev.dl = DialDeadline
                       /\ CASE Ev.res = "ok" -> MDialOk [] Ev.res = "fail" -> MDialFail [] OTHER -> MDialAbort
     \/ Is("io") /\ Step /\ CASE Ev.res = "ok" -> MIoOk /\ ioIdx = Ev.i
-                              [] Ev.res = "timeout" -> MIoTimeout /\ ioIdx = Ev.i
-                              [] OTHER -> MIoErr /\ ioIdx = Ev.i
+                              [] Ev.res = "timeout" -> MIoTimeout /\ (DebugRun \/ ioIdx = Ev.i)
+                              [] OTHER -> MIoErr /\ (DebugRun \/ ioIdx = Ev.i)
     \/ Is("setdl") /\ Step /\ CASE Ev.kind = "past" -> WSetDl
                                  [] OTHER -> (MSetup /\ Background /\ dl' = Ev.kind) \/ (MDefer /\ Background /\ Ev.kind = "none")
     \/ Is("close") /\ Step /\ MCloseIf /\ closed'
